@@ -69,9 +69,11 @@ COMMANDS = [["-m", "mae", "-x", "leadtime"], ["-m", "bias", "-x", "time"], ["-m"
 def run_case(ctx, rng, ci):
     import numpy as np
     kind = rng.choice(["det", "det", "prob", "ens"])
+    twin_grids = rng.random() < 0.25
     ds = gen.make_dataset(rng, n_inputs=rng.choice([2, 2, 3, 4]), prob=kind == "prob", ens=kind == "ens", members=3,
-                          miss=rng.choice([0.0, 0.1, 0.2]), sparse=rng.choice([0.0, 0.2]), max_t=5, max_l=4, max_s=4,
-                          some_without_obs=rng.random() < 0.35)
+                          miss=rng.choice([0.0, 0.1, 0.2]), sparse=rng.choice([0.0, 0.2]) if not twin_grids else 0.0, max_t=5, max_l=4, max_s=4,
+                          some_without_obs=rng.random() < 0.35, same_dims=twin_grids, fmt="text" if twin_grids else None,
+                          leadtime_pool=[0, 1, 2, 3, 4, 5, 6, 9, 12, 15, 18, 24] if twin_grids else None)
     if any("obs" not in i["has"] for i in ds["inputs"]):
         ctx.count("families_with_borrowed_observations")
     if rng.random() < 0.4 and all("obs" in i["has"] for i in ds["inputs"]):
@@ -83,6 +85,15 @@ def run_case(ctx, rng, ci):
                     c["obs"] = c["obs"] + 0.125 * (j + 1)
         ctx.count("families_with_different_observations")
     F = len(ds["inputs"])
+    if twin_grids:
+        # two lead-time lists of the same length with the same ends but another value in between
+        i1 = ds["inputs"][1]
+        pool = [0, 1, 2, 3, 4, 5, 6, 9, 12, 15, 18, 24]
+        inner = i1["leadtimes"][1:-1]
+        free = [x for x in pool if all(x not in i["leadtimes"] for i in ds["inputs"]) and i1["leadtimes"][0] < x < i1["leadtimes"][-1]]
+        if inner and free and len(set(i1["leadtimes"]) & set(ds["inputs"][0]["leadtimes"])) >= 3:
+            gen.rename_leadtime(i1, rng.choice(inner), rng.choice(free))
+            ctx.count("families_with_same_ends_other_interior")
     base = os.path.join(ctx.workdir, "c%d" % ci)
     pa, _ = write_variant(ds, os.path.join(base, "a"), rng, True)
     conflict = rng.random() < 0.3
@@ -187,6 +198,37 @@ def run_case(ctx, rng, ci):
                               % (" ".join(cmd), want_names, bad), case)
                 break
     ctx.case("%d|%s|file-order|%s" % (F, fmts, cmd[1]), F >= 2)
+    # (c2) the -T commands, files in the given and in the reversed order
+    noobs = [i["name"] for i in ds["inputs"] if "obs" not in i["has"]]
+    for cmd in commands[8:]:
+        if twin_grids:
+            # each order in a fresh interpreter, as from a shell (state kept at module level by an earlier run cannot hide anything)
+            rc1, out1, err1 = runner.run_cli_fresh(pb + cmd + ["-type", "csv"])
+            rc2, out2, err2 = runner.run_cli_fresh(list(reversed(pb)) + cmd + ["-type", "csv"])
+            ctx.count("fresh_process_runs", 2)
+            if rc1 != 0 or rc2 != 0:
+                if "Traceback" in (err1 or "") + (err2 or ""):
+                    ctx.violation("file-order-run-failed", "fresh process: %s %s" % ((err1 or "")[-300:], (err2 or "")[-300:]), case)
+                continue
+        else:
+            o1 = runner.run_cli(pb + cmd + ["-type", "csv"])
+            o2 = runner.run_cli(list(reversed(pb)) + cmd + ["-type", "csv"])
+            if o1.status != "ok" or o2.status != "ok":
+                continue
+            out1, out2 = o1.stdout, o2.stdout
+        ctx.count("file_orders", 2)
+        h1, r1 = runner.parse_csv(out1)
+        h2, r2 = runner.parse_csv(out2)
+        nd = len(h1) - F
+        c1 = {h1[nd + j]: [r[nd + j] for r in r1] for j in range(F)}
+        c2 = {h2[nd + j]: [r[nd + j] for r in r2] for j in range(F)}
+        ctx.count("columns_compared", F)
+        bad = [n for n in c1 if c1[n] != c2.get(n)]
+        if bad:
+            key = "file-order-changes-scores"
+            if all(n in noobs for n in bad):
+                key = "file-order-changes-scores|T-window-of-borrowed-observations"
+            ctx.violation(key, "verif %s: with the files in reversed order the columns of %s differ" % (" ".join(cmd), bad), case)
 
 
 def run_shard(desc, ctx):
